@@ -376,7 +376,7 @@ PROPS["C04"] = {
     "gen": ["gen_pseudo_props.py"],
     "lean": ["QV.Props.C04"],
     "streams": ["c04"],
-    "rule": "each case derives from a generated document (object trees over the real Qt 5 metatypes: widgets, the four layouts, "
+    "rule": "a quarter of the documents import with a version and a quarter of the handler functions carry a return type annotation (both WARNINGs); acceptance is the library's own Diagnostics::has_error(), cross-checked against the recorded kinds; clean documents, preferring ones with warnings, also run through the real CLI (exit 0, outputs byte-identical to the in-process ones, warning count); 26 fault kinds incl. dynamic members of nested object maps and 1-3 handlers inside object, gadget and attached maps, each of which must be diagnosed inside its own text, two runs reporting the same diagnostics; constants only the header can set (`separator` next to other bindings) are in the ledger. Each case derives from a generated document (object trees over the real Qt 5 metatypes: widgets, the four layouts, "
             "spacers, actions, static separators, menus, tab pages, item views with header.* maps, combo models, explicit `actions` "
             "lists; per object 0-7 constant/dynamic scalar bindings, grouped font/size/rect/size-policy/margins/icon members incl. "
             "groups mixing constant and dynamic members, attached QLayout.*/QTabWidget.* bindings, signal handlers) translated by the "
@@ -425,7 +425,7 @@ PROPS["C14"] = {
     "gen": ["gen_pseudo_props.py"],
     "lean": ["QV.Props.C14"],
     "streams": ["c14"],
-    "rule": "each case derives from a generated document of the C04 generator (a third stripped to constant-only so that reject mode "
+    "rule": "c14-modes also checks the generator's own expectation: clean documents are accepted in generate and omit, reject refuses exactly when some binding needs the header (dynamic, handler, or a constant left unevaluated), header empty exactly otherwise; omit acceptance equals generate acceptance; acceptance via the library's has_error(). Each case derives from a generated document of the C04 generator (a third stripped to constant-only so that reject mode "
             "accepts), clean and with one planted fault (20 kinds). c14-modes (oracle): the document is translated in generate, reject "
             "and omit in-process; .ui bytes equal whenever produced and produced in the same modes; reject accepts ⇔ generate accepts "
             "with a header that has no update/eval/on functions and no connects (token scan of the real header); every omit-mode error "
@@ -440,7 +440,7 @@ PROPS["C14"] = {
                   "cell_state_is_route, evaluate_idem); reject_iff_empty_generate (both directions, via rejectEntry = [] ⇔ evalConst and "
                   "¬evalConst ⇒ a binding or a diagnostic in the C++ pass); omit_errors_eq_generate (preview mode reports exactly the diagnostics of generate mode, in the same order: since /repo c47e7fb it "
                   "builds the support code for its diagnostics and discards it), hence omit_errors_subset_generate (the property's clause) and "
-                  "omit_accepted_iff_generate; common_errors_in_every_mode; reject_only_errors_are_rej; header_only_generate",
+                  "omit_accepted_iff_generate; common_errors_in_every_mode; reject_only_errors_are_rej; header_only_generate; unevaluated_binding_refused_by_reject (any top-level property the constant pass left unevaluated, constant or not, makes reject mode refuse the document)",
     "level_note": "trusted: Lean kernel; the hand-written pass model tied by exact comparison in all three modes on generated clean and "
                   "faulted documents; the real-header emptiness test is a token scan",
     "technique": "Lean 4 proof (the mode switch only reads the state left by the shared passes) + 3-mode differential correspondence + byte "
@@ -451,7 +451,7 @@ PROPS["C20"] = {
     "gen": ["gen_pseudo_props.py"],
     "lean": ["QV.Props.C20"],
     "streams": ["c20"],
-    "rule": "each case is a clean document of the C04 generator with one fault (22 kinds × sampled positions; 4 per document in the quick "
+    "rule": "each case is a clean document of the C04 generator with one fault (26 kinds × sampled positions; every planted binding of a multi-binding fault must be reported in omit mode; 4 per document in the quick "
             "tier). c20-local (oracle, on a variant where a third of the unreferenced objects are anonymous): omit mode yields a form; "
             "the planted error is reported with its range inside the planted binding (for the kinds the preview passes can see); the "
             "XML tree of the faulted run equals the tree of the fault-free run (document without the faulty binding / with the "
